@@ -184,6 +184,9 @@ class GenBinding:
             d, r, c = np.asarray(d), np.asarray(r), ctx
         elif kind == "fortran":
             d, r, c = np.asarray(d), np.asarray(r), np.asfortranarray(np.asarray(c))
+        elif kind == "f32":
+            # training contexts in single precision (exactly representable values), query contexts in double precision
+            d, r, c = np.asarray(d), np.asarray(r), np.asarray(c, dtype="float32")
         elif kind == "view":
             wide = np.zeros((len(c), 2 * self.dims))
             wide[:, ::2] = np.asarray(c)
